@@ -560,6 +560,8 @@ def _vk_from_string(cls, string, curve=None, hashfunc=None, validate_point=True,
         if not bool((p == 2) | (p == 3) if not isinstance(p == 2, bool) or not isinstance(p == 3, bool) else (p in (2, 3))):
             _mraise(MalformedPointError("Malformed compressed point encoding"))
         e = b.bv()
+        # -P has the same x and the other y parity (secp256k1 has no point with y = 0): 02||x is valid iff 03||x is
+        C().add(_VALID(e) == _VALID(e ^ z3.BitVecVal(1 << 256, 264)))
         if not C().decide(_VALID(e)):
             _mraise(MalformedPointError("Encoding does not correspond to a point on curve"))
         d = _DLOG(e)
@@ -576,6 +578,14 @@ def _vk_from_string(cls, string, curve=None, hashfunc=None, validate_point=True,
             xy = b[1:].bv()
         else:
             xy = b.bv()
+        if not validate_point:
+            # ecdsa documents that validate_point=False skips the curve-membership test of an explicitly given (x, y):
+            # whatever the coordinates are, a key object comes back (compressed encodings still need a square root)
+            d = _DLOGU(xy)
+            c = C()
+            c.add(z3.ULT(d, z3.BitVecVal(N, 256)), d != 0)
+            c.add(z3.Implies(_VALIDU(xy), z3.Concat(_X(d), _Y(d)) == xy))
+            return ModelVK(SxInt.bv(z3.ZeroExt(1, d), 1, N - 1))
         if not C().decide(_VALIDU(xy)):
             _mraise(MalformedPointError("Point does not lay on the curve"))
         d = _DLOGU(xy)
@@ -736,6 +746,32 @@ class NativeOracle:
         vk = ecdsa.SigningKey.from_secret_exponent(k, curve=ecdsa.SECP256k1).get_verifying_key()
         return vk.to_string("compressed" if compressed else "uncompressed")
 
+    def sec_valid(self, b):
+        """is b (33: compressed, 64: raw, 65: uncompressed / hybrid) the encoding of a point of secp256k1?  Written from
+        the curve equation y^2 = x^3 + 7 over F_p; independent of ecdsa."""
+        P = 2 ** 256 - 2 ** 32 - 977
+        b = bytes(b)
+        if len(b) == 33:
+            x = int.from_bytes(b[1:], "big")
+            if b[0] not in (2, 3) or x >= P:
+                return False
+            a = (pow(x, 3, P) + 7) % P
+            return pow(a, (P - 1) // 2, P) in (0, 1)
+        if len(b) == 65:
+            if b[0] not in (4, 6, 7):
+                return False
+            xy = b[1:]
+        elif len(b) == 64:
+            xy = b
+        else:
+            return False
+        x, y = int.from_bytes(xy[:32], "big"), int.from_bytes(xy[32:], "big")
+        if x >= P or y >= P or (y * y - pow(x, 3, P) - 7) % P != 0:
+            return False
+        if len(b) == 65 and b[0] in (6, 7) and (y & 1) != (b[0] & 1):
+            return False
+        return True
+
     def point_add_sec(self, sec_a, k):
         """SEC(P + k*G) for SEC-encoded P; None for infinity"""
         import ecdsa
@@ -759,3 +795,11 @@ class SymOracle:
 
     def sec(self, k, compressed=True):
         return sec_of(k, "compressed" if compressed else "uncompressed")
+
+    def sec_valid(self, b):
+        """the model's (uninterpreted) curve-membership predicate of an encoding, as a solver term"""
+        from .values import mkbool
+        if len(b) == 33:
+            return mkbool(_VALID(b.bv()))
+        xy = b[1:] if len(b) == 65 else b
+        return mkbool(_VALIDU(xy.bv()))
